@@ -77,7 +77,7 @@ def run(ctx):
         n_exh, new_exh = extract_rows(res.output, fh, seen)
         res.output = ""
         # 2. seeded random deep derivations (budget 7, width 3)
-        sim = ctx.tlc("Idempotency", "Idempotency_sim.cfg", simulate="num=%d" % (6000 if thorough else 2500), depth=100,
+        sim = ctx.tlc("Idempotency", "Idempotency_sim.cfg", simulate="num=%d" % (6000 if thorough else 1500), depth=100,
                       workers=8, timeout=1500, count=False, name="deep-simulation")
         if not sim.ok or sim.violated:
             raise core.Inconclusive("TLC simulation of Idempotency did not pass (violated=%s error=%s)\n%s" % (
@@ -217,7 +217,8 @@ def replay(path):
             p = g["probes"][0]
             rc, so, se = ctx.drv(["deepchild", "-template", p["template"], "-form", p["form"], "-depth", str(p["depth"])],
                                  cmd_name=DRV, check=False, timeout=600)
-            print("deepchild rc=%d %s" % (rc, (so or se)[:300]))
+            msg = next((l for l in se.splitlines() if "fatal error" in l or "panic" in l), "")
+            print("deepchild %r x %d in %s: rc=%d %s" % (p["form"], p["depth"], p["template"], rc, msg or so[:300]))
             return 1 if rc != 0 else 0
         texts, want = [], []
         for s in g.get("samples") or []:
